@@ -19,7 +19,9 @@ CONSTANTS ReplyMode,          \* "pinned" | "deferred"
           AIsClient,          \* kex role of the initiator
           Inflight,           \* set of in-flight message kinds B may have sent: subset of ConnKinds
           MaxInflight,        \* how many in-flight messages
-          UserMsgs            \* data messages A's user threads want to send during the exchange
+          UserMsgs,           \* data messages A's user threads want to send during the exchange
+          KexinitTakesLock    \* TRUE: _send_kex_init clears clear_to_send under clear_to_send_lock (as the code does);
+                              \* FALSE: it just clears the event (mutation): KEXINIT can overtake a user packet
 
 Ends == {"A", "B"}
 Peer(e) == IF e = "A" THEN "B" ELSE "A"
@@ -37,9 +39,10 @@ VARIABLES wire,       \* [end -> Seq of messages travelling TOWARDS that end]
           deferred,   \* [end -> Seq] replies held back until NEWKEYS (repaired design)
           out,        \* [end -> Seq of message types emitted]   (observation)
           nIn,        \* in-flight messages B has sent
+          ctsLock,    \* "free" | "user": clear_to_send_lock of A held by a user thread that passed the check
           nUser,      \* user messages A has sent
           requests, replies   \* in-flight messages needing an answer / answers received by B
-vars == <<wire, sentKexinit, gotKexinit, sentNewkeys, gotNewkeys, cts, blocked, dead, deferred, out, nIn, nUser,
+vars == <<wire, sentKexinit, gotKexinit, sentNewkeys, gotNewkeys, cts, blocked, dead, deferred, out, nIn, nUser, ctsLock,
           requests, replies>>
 
 Client == IF AIsClient THEN "A" ELSE "B"
@@ -50,7 +53,7 @@ Init == /\ wire = [e \in Ends |-> <<>>]
         /\ sentNewkeys = [e \in Ends |-> FALSE] /\ gotNewkeys = [e \in Ends |-> FALSE]
         /\ cts = [e \in Ends |-> TRUE] /\ blocked = [e \in Ends |-> FALSE] /\ dead = [e \in Ends |-> FALSE]
         /\ deferred = [e \in Ends |-> <<>>] /\ out = [e \in Ends |-> <<>>]
-        /\ nIn = 0 /\ nUser = 0 /\ requests = 0 /\ replies = 0
+        /\ nIn = 0 /\ nUser = 0 /\ requests = 0 /\ replies = 0 /\ ctsLock = "free"
 
 Emit(e, ms) == /\ wire' = [wire EXCEPT ![Peer(e)] = @ \o ms]
                /\ out' = [out EXCEPT ![e] = @ \o ms]
@@ -60,20 +63,26 @@ BSendsInflight(k) ==
   /\ ~sentKexinit["B"] /\ ~gotKexinit["B"] /\ cts["B"] /\ ~dead["B"] /\ nIn < MaxInflight /\ k \in Inflight
   /\ Emit("B", <<k>>) /\ nIn' = nIn + 1
   /\ requests' = IF k = "plain" THEN requests ELSE requests + 1
-  /\ UNCHANGED <<sentKexinit, gotKexinit, sentNewkeys, gotNewkeys, cts, blocked, dead, deferred, nUser, replies>>
+  /\ UNCHANGED <<sentKexinit, gotKexinit, sentNewkeys, gotNewkeys, cts, blocked, dead, deferred, nUser, replies, ctsLock>>
 
 \* A: renegotiate_keys() / rekey threshold / keepalive-triggered: _send_kex_init
 AStartsKex ==
   /\ ~sentKexinit["A"] /\ ~dead["A"] /\ cts["A"]
+  /\ (KexinitTakesLock => ctsLock = "free")
   /\ sentKexinit' = [sentKexinit EXCEPT !["A"] = TRUE]
   /\ cts' = [cts EXCEPT !["A"] = FALSE]
   /\ Emit("A", <<"KEXINIT">>)
-  /\ UNCHANGED <<gotKexinit, sentNewkeys, gotNewkeys, blocked, dead, deferred, nIn, nUser, requests, replies>>
+  /\ UNCHANGED <<gotKexinit, sentNewkeys, gotNewkeys, blocked, dead, deferred, nIn, nUser, requests, replies, ctsLock>>
 
-\* a user thread of A sends channel data: only while clear_to_send
-AUserSends ==
-  /\ nUser < UserMsgs /\ cts["A"] /\ ~dead["A"]
-  /\ Emit("A", <<"plain">>) /\ nUser' = nUser + 1
+\* a user thread of A sends channel data (_send_user_message): takes clear_to_send_lock, checks the event ...
+AUserPasses ==
+  /\ nUser < UserMsgs /\ cts["A"] /\ ~dead["A"] /\ ctsLock = "free"
+  /\ ctsLock' = "user"
+  /\ UNCHANGED <<wire, sentKexinit, gotKexinit, sentNewkeys, gotNewkeys, cts, blocked, dead, deferred, out, nIn, nUser, requests, replies>>
+\* ... and only then writes the packet and releases the lock
+AUserEmits ==
+  /\ ctsLock = "user"
+  /\ Emit("A", <<"plain">>) /\ nUser' = nUser + 1 /\ ctsLock' = "free"
   /\ UNCHANGED <<sentKexinit, gotKexinit, sentNewkeys, gotNewkeys, cts, blocked, dead, deferred, nIn, requests, replies>>
 
 InExchange(e) == sentKexinit[e] /\ ~gotNewkeys[e]
@@ -138,16 +147,16 @@ Handle(e) ==
                    /\ UNCHANGED <<sentKexinit, gotKexinit, sentNewkeys, gotNewkeys, cts, blocked, dead, deferred, replies>>
               ELSE /\ blocked' = [blocked EXCEPT ![e] = TRUE] /\ wire' = rest  \* waits for an event only it can set
                    /\ UNCHANGED <<sentKexinit, gotKexinit, sentNewkeys, gotNewkeys, cts, dead, deferred, out, replies>>
-  /\ UNCHANGED <<nIn, nUser, requests>>
+  /\ UNCHANGED <<nIn, nUser, requests, ctsLock>>
 
 \* clear_to_send_timeout: the blocked transport thread gives up -> SSHException -> the session ends
 GiveUp(e) == /\ blocked[e] /\ blocked' = [blocked EXCEPT ![e] = FALSE] /\ dead' = [dead EXCEPT ![e] = TRUE]
-             /\ UNCHANGED <<wire, sentKexinit, gotKexinit, sentNewkeys, gotNewkeys, cts, deferred, out, nIn, nUser, requests, replies>>
+             /\ UNCHANGED <<wire, sentKexinit, gotKexinit, sentNewkeys, gotNewkeys, cts, deferred, out, nIn, nUser, requests, replies, ctsLock>>
 
 Finished == /\ \A e \in Ends : gotNewkeys[e] /\ cts[e] /\ ~dead[e] /\ ~blocked[e] /\ wire[e] = <<>> /\ deferred[e] = <<>>
-            /\ replies = requests
+            /\ replies = requests /\ ctsLock = "free"
 Next == \/ \E k \in ConnKinds : BSendsInflight(k)
-        \/ AStartsKex \/ AUserSends
+        \/ AStartsKex \/ AUserPasses \/ AUserEmits
         \/ \E e \in Ends : Handle(e) \/ GiveUp(e)
         \/ (Finished /\ UNCHANGED vars)
 Spec == Init /\ [][Next]_vars
